@@ -27,7 +27,7 @@ import (
 // C11 — issuance with fixed blinds is reproducible and the token ignores the blind.
 type c11 struct{ base }
 
-func init() { core.Register(c11{base{"C11", "exploration", 200, 5000}}) }
+func init() { core.Register(c11{base{"C11", "exploration", 2000, 50000}}) }
 
 func (c11) Describe() core.Description {
 	return core.Description{
